@@ -39,8 +39,6 @@ def foldSame (a b : Bytes) : Prop := foldKey a = foldKey b
 
 instance (a b : Bytes) : Decidable (foldSame a b) := by unfold foldSame; infer_instance
 
-/-- only ASCII symbols (RFC 6066: a server_name is ASCII; IDNs travel as A-labels) -/
-def isAscii (s : Bytes) : Bool := s.all (· < 128)
 
 /-- the policy has an `sni` matcher that lists `k` byte for byte (what the index is keyed on) -/
 def Matcher.lists (k : Bytes) : Matcher → Bool
